@@ -26,6 +26,30 @@ CHECKS = {
         "gymnasium's contains/flatten are trusted; reachable counts are limited by what the generated histories produce "
         "(the component layer adds synthetic states).",
     ),
+    "C03": (
+        "differential PBT across interpreter processes: same (scenario, seed, actions) under different PYTHONHASHSEED, "
+        "entropy stream, clock and logging; re-seeded episode pairs",
+        "Each generated case (shipped stochastic scenarios incl. nmap red agents and UC7 threat actors, and generated families with "
+        "probabilistic/periodic agents) is executed by vlib/traj_worker.py in separate interpreters that differ in "
+        "PYTHONHASHSEED, in the harness-owned entropy (uuid4, MAC/ICMP identifier bits, payload tokens), in the clock "
+        "(origin, whole-second stamps) and in logging (all on at DEBUG vs off); per-step digests of observation, reward and "
+        "every agent's action/parameters/status/response data must be identical, and within a run the two episodes started "
+        "by reset(seed=s) must be identical. Exploration over sampled seeds and hash seeds.",
+        "Only what the property lists (observations, rewards, histories) is compared, after replacing uuids/MACs/timestamps "
+        "by first-appearance labels; hash seeds are 3 (quick) / 5 (thorough) fixed values.",
+    ),
+    "C04": (
+        "differential PBT: used-then-reset env vs fresh env; reset vs construction; solo vs interleaved instances; "
+        "object-identity disjointness",
+        "(a) a dirty history H followed by reset(seed=s) and actions A is compared step by step (trajectory + normalised "
+        "state hash) with a fresh environment doing reset(seed=s), A, and no SimComponent/agent/manager of the old game may "
+        "be reachable from the new one; (b) a newly constructed environment is compared with the same configuration after "
+        "reset(seed=s) (power states, first observation, trajectory); (c) instance X's trajectory alone is compared with "
+        "X interleaved with construct/step/reset/close calls on an instance Y with different options, the shared global "
+        "RNGs and harness entropy being saved/restored around Y's calls. Exploration.",
+        "Global Python/NumPy RNG sharing is by design and equalised by the harness; entropy is restarted at the same "
+        "logical point in both runs of each differential.",
+    ),
     "C05": (
         "PBT over request paths x path mutations x action-formed requests at generated states; observe-only tracer of "
         "RequestManager return points; whole-state before/after differential",
